@@ -5,7 +5,9 @@ import json
 import os.path
 import random
 
+import c03_hostcase
 import c03_invisible
+import c03_requote
 import canon_common as cc
 import lib
 import norm_common as nc
@@ -14,7 +16,8 @@ import urlgen
 ID = "C03"
 LEAN_MODULE = "UralModel.Props.C03"
 # the string level (cleaning of the canonical form): Props/C03Control.lean, same namespace
-EXTRA_IMPORTS = ["UralModel.Props.C03Control"]
+# quoted mode (the exclusion of (a)/(c1) made independent of the regenerated tables): Props/C03Requote.lean
+EXTRA_IMPORTS = ["UralModel.Props.C03Control", "UralModel.Props.C03Requote"]
 THEOREMS = [
     "Ural.Props.C03.normalize_factors",
     "Ural.Props.C03.normalize_canonicalize_partial",
@@ -35,6 +38,11 @@ THEOREMS = [
     "Ural.Props.C03.canonical_form_has_no_cleaned_character",
     "Ural.Props.C03.clean_canonical",
     "Ural.Props.C03.normalize_cleaning_canonical_partial",
+    # Props/C03Requote.lean: quoted mode under an exclusion no table can widen (from unsafe_sets_requote_safe)
+    "Ural.Props.C03.requote_round_trip_components",
+    "Ural.Props.C03.quotedClean_of_quotedDelimFree",
+    "Ural.Props.C03.normalize_canonicalize_quoted_partial",
+    "Ural.Props.C03.normalize_of_canon_eq_quoted_partial",
 ]
 TABLE_OBLIGATIONS = [
     "Ural.Props.C03.tables_unsafe_sets",
@@ -45,13 +53,24 @@ TABLE_OBLIGATIONS = [
     "Ural.Props.C03.reparse_separators_stay_escaped",
     "Ural.Props.C03.parser_removals_are_cleaned",
     "Ural.Props.C03.escape_recognisers_agree",
+    # Props/C03Requote.lean: UNSAFE_FOR_* vs the regenerated safe set of safely_quote
+    "Ural.Props.C03.quote_safe_set_model",
+    "Ural.Props.C03.unsafe_sets_requote_safe",
 ]
 RULE = (
     "A case is a collision class: [stream 'inv', harness/c03_invisible.py, right after the corpus] a control / "
     "white-space / invisible character — every range boundary of the REGENERATED classes of CONTROL_CHARS_RE, str.strip, "
     "NON_PRINTABLE_RE and of urlsplit's own removals, a fixed list of Unicode format characters, the ASCII characters a "
     "component reserves — spelled raw / with upper-case / lower-case escapes in 14 shapes (path, query key, value, "
-    "fragment, userinfo, ends of the URL; the shapes of seeded C03-3 and of 5de5f5e); [otherwise] "
+    "fragment, userinfo, ends of the URL; the shapes of seeded C03-3 and of 5de5f5e); [stream 'requote', "
+    "harness/c03_requote.py, mostly quoted=True] every printable ASCII character the real safely_quote escapes and every "
+    "byte of the REGENERATED UNSAFE_FOR_* sets, spelled raw / %XX / %xx in a query value of a repeated key, a key, a "
+    "lone key, next to a sibling item that continues with a character between '%' and the character in code-point "
+    "order (nearest to either end and the middle one; thorough: all), and in path segments / index file / fragment / "
+    "tracking key; [stream 'hostcase', harness/c03_hostcase.py] a host label holding a character on which str.lower / "
+    "str.casefold / str.upper().lower() / NFKC+lower of the running interpreter differ (classes derived from str and "
+    "unicodedata over U+0080-U+1FFFF; quick: the ends of every run of code points, one of 4 host shapes each; thorough: "
+    "all), spelled as itself / lower / upper / case-folded / upper-then-lower / NFKC / swapcase and as xn-- labels; [otherwise] "
     "a base URL (structured components over the quantifier's token "
     "alphabet, normalize-specific hosts / tails / tracking items) and up to 4 members obtained by "
     "compositions of <= 3 spelling transformations — C02's (scheme/host case, explicit default port, "
@@ -74,7 +93,7 @@ EXHAUSTIVE = {
 TRUSTED = [
     "CPython urlsplit + SplitResult accessors (run, not modelled): in particular that re-parsing the printed canonical URL gives its components back (evaluated per case by the driver line c03_bridge: Reparses(canonComps(parse u), parse(canonicalize_url(u)))) and that the parse of u.lower() is the component-wise lower-casing of the parse of u (line c03_lower)",
     "CPython idna codec (PunyLaws hypothesis; per-run table)",
-    "str.lower()/str.strip() outside the model alphabet (DESIGN §4): fingerprint lines are compared only for URLs inside it, the oracle runs on all",
+    "str.lower()/str.strip() outside the model alphabet (DESIGN §4): fingerprint lines are compared only for URLs inside it, the oracle runs on all; that the three functions map the letter case of a non-ASCII host compatibly is the per-run law HostCase (harness/c03_hostcase.py)",
     "the platform_aware branch (facebook / youtube parsers, C19) is not modelled: the harness ships the rewritten URL's components",
     "Lean kernel, lake build, the native driver",
 ]
@@ -86,7 +105,12 @@ ASSUMPTIONS = [
 UNPROVED = (
     "PARTIAL. (a),(c1) are proved on parsed components (normParts of ANY re-parse of canonComps(p) = normParts p, whatever "
     "default protocol canonicalisation assumed) in both modes — quoted=True for QuotedClean inputs, the exclusion of the "
-    "KF-C02-1 family, which really fails (witness in Props/C03.lean, KF-C03-4) — for paths that are empty or absolute "
+    "KF-C02-1 family, which really fails (witness in Props/C03.lean, KF-C03-4); QuotedClean reads the regenerated unsafe sets, so "
+    "Props/C03Requote.lean derives it from a FIXED exclusion (QuotedDelimFree: no raw '=' inside a query value, no raw '#' in "
+    "the query, '?'/'#' in the path, no control character) through the table obligation unsafe_sets_requote_safe (every byte "
+    "of UNSAFE_FOR_PATH / _QUERY_ITEM / _FRAGMENT is in the regenerated safe set of safely_quote, or is the space / '%', or a "
+    "delimiter of its component) and restates (c1)/(a) under it (normalize_canonicalize_quoted_partial, "
+    "normalize_of_canon_eq_quoted_partial): a table edit cannot widen the exclusion, it breaks the obligation — for paths that are empty or absolute "
     "(every URL with an authority), under PunyLaws (PathHyp — three normpath facts — is discharged from "
     "Lemmas/Normpath.lean); platform_aware and the redirect "
     "step act on the string before parsing and are outside the theorems. (b) is proved (SortHyp — the query sort "
@@ -96,7 +120,10 @@ UNPROVED = (
     "'/Index.html' vs '/Index.html/index.html', replayed on the implementation as KF-C03-3). (c2) = (c1)+(b) under the "
     "union of the hypotheses. NOT proved, explored by the oracle on every run: (b),(c2) on URLs with capital letters "
     "(that normalize_url's steps other than the index test commute with lower-casing), "
-    "platform_aware=True (D53: KF-C03-2), URLs with a redirect hint (D29: KF-C03-1), the "
+    "platform_aware=True (D53: KF-C03-2), URLs with a redirect hint (D29: KF-C03-1), the letter case of NON-ASCII hosts "
+    "(the model lower-cases ASCII only, with one function in all three schemes; that the real functions' mappings absorb one "
+    "another there is the per-run law HostCase.absorb / HostCase.merge over every character on which str.lower / casefold / "
+    "upper().lower() / NFKC differ, plus the 'hostcase' stream), the "
     "CPython half of the string-level bridging (that urlsplit gives the printed components back and parses u.lower() into the "
     "lower-cased components: evaluated per case by c03_bridge / c03_lower; an "
     "unknown scheme with an empty authority, where it used to fail - KF-C03-5 - is fixed: FX-C02-f918741), equality of "
@@ -282,6 +309,14 @@ def cases(rng, tier):
     # invisible / control / white-space characters, raw and escaped, in every text component
     # (characters from the regenerated classes: harness/c03_invisible.py)
     for c in c03_invisible.cases(tier):
+        yield c
+    # quoted mode: what safely_quote escapes / what the unquoters keep escaped, raw and escaped, next to a
+    # sibling item that sorts between the two spellings (characters from the tree under test: harness/c03_requote.py)
+    for c in c03_requote.cases(tier):
+        yield c
+    # hosts written in Unicode with a character on which str.lower / str.casefold / str.upper().lower() / NFKC differ
+    # (derived from the running interpreter: harness/c03_hostcase.py), every spelling, raw and as xn-- label
+    for c in c03_hostcase.cases(tier):
         yield c
     c02 = sorted(urlgen.C02_TRANSFORMS)
     nts = sorted(N_TRANSFORMS)
@@ -526,26 +561,47 @@ def kf_index_case(case, failure):
     return root.lower() in ("index", "default") and root not in ("index", "default")
 
 
+def _escape_value_eq(x):
+    """x with every raw '=' inside a query value spelled '%3D' (None: there is none)"""
+    s = cc.clean_impl(x, "https")
+    body, h, frag = s.partition("#")
+    head, qm, query = body.partition("?")
+    items, hit = [], False
+    for item in query.split("&"):
+        k, eq, v = item.partition("=")
+        if "=" in v:
+            hit = True
+            v = v.replace("=", "%3D")
+        items.append(k + eq + v)
+    return head + qm + "&".join(items) + h + frag if hit else None
+
+
 def kf_quoted_raw_delim(case, failure):
     """KF-C03-4 (the KF-C02-1 family seen from C03): in quoted mode a raw '=' in a query value
-    (':' / '@' in the userinfo) is escaped by canonicalize_url(quoted=True) and stays escaped,
-    so normalize_url sorts '%3D' where it sorted '='."""
-    from urllib.parse import urlsplit
+    is escaped by canonicalize_url(quoted=True) and stays escaped, so normalize_url sorts '%3D'
+    where it sorted '='.  Recognised: quoted mode, a string of the failing relation holds a raw
+    '=' inside a query value, AND the relation holds once those are spelled '%3D' (so a failure
+    that has another cause is not swallowed because such an item happens to be around)."""
+    from ural import canonicalize_url, normalize_url
 
     t = _tail(failure)
     if not t["quoted"] or t["rel"] not in ("a", "c1"):
         return False
-    for x in (t["u"], t["v"]):
-        if x is None:
-            continue
-        try:
-            r = urlsplit(cc.clean_impl(x, "https"))
-        except ValueError:
-            continue
-        for item in r.query.split("&"):
-            if "=" in item and "=" in item.split("=", 1)[1]:
-                return True
-    return False
+    try:
+        fixed = [(_escape_value_eq(x) if x is not None else None) for x in (t["u"], t["v"])]
+    except Exception:  # noqa
+        return False
+    if fixed[0] is None and fixed[1] is None:
+        return False
+    u = fixed[0] if fixed[0] is not None else t["u"]
+    v = fixed[1] if fixed[1] is not None else t["v"]
+    kw = {"quoted": True, "platform_aware": t["pa"]}
+    try:
+        if t["rel"] == "c1":
+            return normalize_url(canonicalize_url(u, quoted=True), **kw) == normalize_url(u, **kw)
+        return normalize_url(u, **kw) == normalize_url(v, **kw)
+    except Exception:  # noqa
+        return False
 
 
 KF_PREDICATES = [kf_redirect_hint, kf_platform_aware, kf_index_case, kf_quoted_raw_delim]
@@ -666,17 +722,22 @@ def classify(case):
 # real decode_punycode_hostname, over the enumerated class of ACE labels, on every run (shared:
 # harness/punylaws.py; a failure is reported as a broken obligation `law`)
 RUN_OBLIGATION_GROUPS = ('PunyLaws', 'PunyClean')
-RUN_OBLIGATIONS = "%s of the real label decoder over the enumerated ACE label class of harness/punylaws.py" % " + ".join(RUN_OBLIGATION_GROUPS)
+RUN_OBLIGATIONS = (
+    "%s of the real label decoder over the enumerated ACE label class of harness/punylaws.py; HostCase.absorb / HostCase.merge "
+    "(harness/c03_hostcase.py) of the real canonicalize_url / normalize_url / fingerprint_url over every character on which "
+    "str.lower, str.casefold, str.upper().lower() and NFKC differ (derived from the running interpreter), in a host label, every spelling"
+    % " + ".join(RUN_OBLIGATION_GROUPS)
+)
 
 
 TRUSTED = list(TRUSTED) + [
     "the label decoder `puny` = the real decode_punycode_hostname on one label (harness/punylaws.py: decode_label; the per-case tables come from it); "
-    + RUN_OBLIGATIONS + ": hypotheses of the theorems, evaluated on every run (broken obligation `law` when one fails), not proved of CPython's idna codec"
+    + RUN_OBLIGATIONS + ": hypotheses of the theorems (the model maps the host's letter case with ONE function, ASCII lower-casing, in all three "
+    "schemes), evaluated on every run (broken obligation `law` when one fails), not proved of CPython's idna codec / str.lower"
 ]
 
 
 def run_obligations(tier):
     import punylaws
 
-    return punylaws.run_obligations(RUN_OBLIGATION_GROUPS, tier)
-
+    return punylaws.run_obligations(RUN_OBLIGATION_GROUPS, tier) + c03_hostcase.run_obligations(tier)
